@@ -57,6 +57,10 @@ func metaDoc(c model.MetaCfg, format string, t *fixture.Tree) fixture.Doc {
 	for kind, items := range c.Rel {
 		var l []any
 		for _, it := range items {
+			// deb.breaks is not among the lists documented as environment-expanded
+			if c.RelBlanks && kind != "breaks" && (len(l) == 0 || len(l) == 2) {
+				l = append(l, "${NFPM_VERIF_UNSET}")
+			}
 			l = append(l, model.RenderRel(format, it))
 		}
 		switch kind {
@@ -301,6 +305,23 @@ func enumC02(env *engine.Env, yield func(any) bool) {
 			return
 		}
 	}
+	// components partly inside the version string, partly configured: configured ones win, the others are kept
+	for _, v := range []string{"1.2.3+git5", "1.2.3-beta1", "1.2.3-rc1+build.5", "v1.2.3-beta1", "v1.2+m1", "3-pre"} {
+		for _, pre := range []string{"", "alpha2"} {
+			for _, meta := range []string{"", "git9"} {
+				for _, schema := range []string{"", "none"} {
+					if pre == "" && meta == "" {
+						continue
+					}
+					c := baseMeta()
+					c.Version, c.Prerelease, c.Metadata, c.Schema, c.Release = v, pre, meta, schema, "2"
+					if !emit("version-mixed", c) {
+						return
+					}
+				}
+			}
+		}
+	}
 	// (c) scalar deviations
 	for _, sf := range c02Scalars {
 		for _, v := range c02Values {
@@ -366,6 +387,21 @@ func enumC02(env *engine.Env, yield func(any) bool) {
 		}
 		if !emit("rel8", c) {
 			return
+		}
+		if variant == "versioned" || variant == "plain" {
+			// the same lists written with items that expand to nothing in between: what remains, in order
+			c.RelBlanks = true
+			if !emit("rel8-blanks", c) {
+				return
+			}
+			for _, k := range model.RelKinds {
+				c1 := baseMeta()
+				c1.RelBlanks = true
+				c1.Rel = map[string][]model.RelItem{k: relItems(k, variant)}
+				if !emit("rel1-blanks", c1) {
+					return
+				}
+			}
 		}
 	}
 	// (f) extras
